@@ -50,6 +50,9 @@ func c16ApplyIns(src []byte, ins []c16Ins) []byte {
 
 // c16Rewrite applies operator op to src; ok=false means "leave the file alone".
 func c16Rewrite(op string, name string, src []byte) ([]byte, bool) {
+	if op == "base" {
+		return src, false // merged copy of unrewritten modules (quick tier, modules without fixes)
+	}
 	if op == "crlf" {
 		s := bytes.ReplaceAll(src, []byte("\r\n"), []byte("\n"))
 		return bytes.ReplaceAll(s, []byte("\n"), []byte("\r\n")), true
